@@ -13,7 +13,15 @@ class TheCheck(TreeCheck):
     def streams(self):
         big = self.tier != "quick"
         sts = self.corpus_streams()
-        sts.append(self.bfs_stream(8 if not big else 11, 200000, lambda keys: ["get %s" % hexs(keys[0])]))
+        # "whether it succeeded or failed": every reachable state is also probed with puts whose
+        # allocation fails (new key: 1st/2nd/3rd allocation; replacement: the value copy)
+        def probes(keys):
+            out = ["get %s" % hexs(keys[0])]
+            for k in (1, 2, 3):
+                out += ["fault %d" % k, "put %s 7879" % hexs(b"k99\0"), "fault %d" % k, "put %s 7879" % hexs(b"k03x\0")]
+            out += ["fault 1", "put %s 5a" % hexs(keys[2]), "dump"]
+            return out
+        sts.append(self.bfs_stream(8 if not big else 11, 200000, probes))
         n = 1200 if not big else 15000
         sts.append(Stream("random", self.random_history(n, 80 if not big else 1500, 0, ops=("put", "put", "rm", "get"), quiet=False if not big else True), history=True))
         # ascending / descending / organ-pipe insertion orders, then lookups (cost bound)
